@@ -33,4 +33,14 @@ def splitAtCenter (b : Aabb2 K) : List (Aabb2 K) :=
     ⟨⟨b.mins.x, c.y⟩, ⟨c.x, b.maxs.y⟩⟩ ]
 end Aabb2
 
+/-! ## frame glue of `TriMesh::intersection_with_aabb` / `intersection_with_cuboid` (split_trimesh.rs) -/
+
+/-- `TriMesh::intersection_with_aabb(position, _, aabb, ..)`: `Cuboid::new(aabb.half_extents())` placed at
+`Isometry::from(aabb.center())` (identity rotation, translation = centre) -/
+def aabbAsCuboid (b : Aabb3 K) : V3 K × Iso3 K := (b.halfExtents, ⟨0, 0, 0, 1, b.center⟩)
+
+/-- `TriMesh::intersection_with_cuboid(position, _, cuboid, cuboid_position, ..)`: the cuboid pose handed to
+`intersection_with_local_cuboid`, `position.inv_mul(cuboid_position)` -/
+def cuboidToLocal (pos cpos : Iso3 K) : Iso3 K := pos.invMul cpos
+
 end Model
